@@ -1,4 +1,7 @@
-(* C01 — property theorems (statements only; proofs live in Proofs.v).
+(* C01 — property theorems (statements only; proofs live in Proofs*.v).
+   Main results: C01_denotes (full, under the two known findings' executable guards), C01_sampling_loops /
+   C01_sampling_partial (to_waveform + get_sampled = program meaning), C01_from_table, C01_atoms; refutations:
+   C01_denotes_refuted (parallel channel under a transformation), C01_table_final_refuted (triple final time point).
    plays prog pcs  :=  the unrolled leaves of the program match the pieces one to one (same duration, same channels,
                        same samples on the closed piece interval), the durations agree, and for every channel of the
                        pulse and every t in [0, total) the program plays  at_ pcs c t  (half-open junctions). *)
@@ -8,10 +11,12 @@ Require Import QV.C01.Model QV.C01.Spec QV.C01.Proofs QV.C01.ProofsDefs QV.C01.P
 Import ListNotations.
 Open Scope Q_scope.
 
-(* ---- the full property (kept as definitions: what is still open is visible and type-checked) ---- *)
+(* ---- the full property.  C01_denotes_statement is PROVED below (C01_denotes); the other two are kept as definitions:
+        what is still open is visible and type-checked ---- *)
 Definition C01_denotes_statement : Prop :=
   forall p env cm r, guard_C01_par_order false p = true ->   (* guard of known finding (ii) *)
-    guard_C01_tables p (SDict env) (cm_of cm) = true ->      (* guard of the refuted table class (triple final time point) *)
+    guard_C01_tables p (SDict env) (cm_of cm) = true ->      (* guard of the refuted table class (triple final time point),
+                                                                zero-length linear entries, non-positive FunctionPT duration *)
     create_program p env cm None = Ok r ->
     exists pcs, denote_top p env cm = Ok pcs /\
                 match r with None => pcs = [] | Some prog => plays prog pcs end.
